@@ -11,7 +11,7 @@ import os
 
 import runner
 from flow import Flow
-from mir import callee_of, op_const, op_local, op_place, rv_operands
+from mir import callee_of, op_const, op_int, op_local, op_place, rv_operands
 from paths import err_assign_blocks, follow_result, must_pass, ok_assign_blocks
 from report import Report
 
@@ -328,12 +328,14 @@ def run(tier="quick", replay=None):
                 dl_param = i
         ok = False
         why = "no `Err(deadlock)` return found"
+        deadlock_err_blocks = []
         if dl_param is not None:
             for bb, i, s in ts.stmts():
                 rv = s["rv"]
                 if s["pl"]["l"] == 0 and rv["k"] == "agg" and rv.get("variant") == "Err":
                     l = op_local(rv["ops"][0])
                     if l is not None and dl_param in fl.back_pure([l]):
+                        deadlock_err_blocks.append(bb)
                         # reached through the true edge of an is_empty() test (no progress)
                         for cbb, ct in ts.calls():
                             if (callee_of(ct) or "").endswith("::is_empty"):
@@ -347,6 +349,61 @@ def run(tier="quick", replay=None):
         R.check(ok, "R10.d", "R10.d|util::toposort|deadlock-returned", "%s:%s" % (ts.file, ts.line),
                 "auto: when a round makes no progress toposort returns Err(deadlock) and leaves the loop",
                 "util::toposort no longer reports a dependency cycle: " + why, fn=ts.path)
+        # the sort loop runs until EVERY item is placed: its guard compares the loop counter itself (no offset) with the
+        # number of items - with `counter + 1 < len` the last item's dependencies are never examined and a binding that
+        # depends on itself is accepted
+        guard_ok = False
+        gwhy = "no loop guard comparing the progress counter with the number of items was found"
+        counters = set()
+        for _, _, st in ts.stmts():
+            rv = st["rv"]
+            if rv["k"] == "bin" and rv["op"].startswith("Add") and 1 in (op_int(rv["a"]), op_int(rv["b"])):
+                src = op_local(rv["a"]) if op_local(rv["a"]) is not None else op_local(rv["b"])
+                if src is not None and ts.local_ty(src) == "usize":
+                    # x = x + 1 (through the checked-add tuple)
+                    if src in fl.forward([st["pl"]["l"]]):
+                        counters.add(src)
+        for bbq, b in enumerate(ts.blocks):
+            t = b["t"]
+            if t["k"] != "switch" or b.get("cleanup"):
+                continue
+            dl = op_local(t["discr"])
+            for st in b["s"]:
+                rv = st["rv"]
+                if st["pl"]["l"] == dl and rv["k"] == "bin" and rv["op"] in ("Lt", "Le", "Gt", "Ge", "Ne", "Eq"):
+                    la, lb = op_local(rv["a"]), op_local(rv["b"])
+                    if la is None or lb is None:
+                        continue
+                    a_len = bool(fl.derives_from_call(la, lambda c: c.endswith("::len")))
+                    b_len = bool(fl.derives_from_call(lb, lambda c: c.endswith("::len")))
+                    side = lb if a_len and not b_len else la if b_len and not a_len else None
+                    if side is None:
+                        continue
+                    # is the other side a loop counter, and is it the counter itself?
+                    def copies_of(l):
+                        out = {l}
+                        ch = True
+                        while ch:
+                            ch = False
+                            for _, _, s3 in ts.stmts():
+                                if s3["pl"]["l"] in out and not s3["pl"]["p"] and s3["rv"]["k"] == "use" and op_local(s3["rv"]["op"]) is not None \
+                                        and not op_place(s3["rv"]["op"])["p"] and op_local(s3["rv"]["op"]) not in out:
+                                    out.add(op_local(s3["rv"]["op"]))
+                                    ch = True
+                        return out
+                    # only the loop that contains the no-progress test counts: its guard dominates the Err(deadlock) return
+                    if not any(ts.dominates(bbq, eb) for eb in deadlock_err_blocks):
+                        continue
+                    if copies_of(side) & counters:
+                        # in a loop? the block must reach itself
+                        if bbq in ts.reachable_from_set(ts.succ(bbq)):
+                            guard_ok = True
+                    elif fl.back_pure([side]) & counters and bbq in ts.reachable_from_set(ts.succ(bbq)):
+                        gwhy = "the loop guard compares an expression computed from the progress counter (an offset), not the counter itself, with the number of items"
+        R.check(guard_ok, "R10.d", "R10.d|util::toposort|every-item-examined", "%s:%s" % (ts.file, ts.line),
+                "auto: the sort loop continues while the progress counter itself is below the number of items",
+                "util::toposort may stop before every item has been examined: " + gwhy +
+                " - the dependencies of the item(s) left are never checked, so a self-dependent binding is accepted", fn=ts.path)
     for path in ("compiler::codegen::hoist_assign_form",):
         f = prog.fn(path)
         if f is None:
@@ -377,6 +434,50 @@ def run(tier="quick", replay=None):
         R.check(ok, "R10.d", "R10.d|toposort_assign_bindings|deadlock-is-error", "%s:%s" % (tab.file, tab.line),
                 "auto: passes a CompileErr as the deadlock value",
                 "toposort_assign_bindings no longer passes a CompileErr as toposort's deadlock value", fn=tab.path)
+    # ---------------- R10.e compile errors are not swallowed ---------------------------------------------
+    # A rejection only works if the error reaches the caller.  Inventory: every place under compiler:: where a
+    # Result<_, CompileErr> is consumed by an error-discarding combinator (ok / unwrap_or* / is_ok / is_err / map_or* / err).
+    # Each is either a nested-Result flattening (the closure returns Err(e)) or a reviewed line of the table; a new one -
+    # e.g. a candidate compilation in the optimiser whose failure is turned into "not an improvement" - is reported.
+    SWALLOW = ("Result::<T, E>::ok", "Result::<T, E>::unwrap_or", "Result::<T, E>::unwrap_or_else", "Result::<T, E>::unwrap_or_default",
+               "Result::<T, E>::is_ok", "Result::<T, E>::is_err", "Result::<T, E>::map_or", "Result::<T, E>::map_or_else", "Result::<T, E>::err")
+    tbl = load_table()
+    import re as _re
+    nsw = 0
+    ords = {}
+    for g in sorted(prog.fns.values(), key=lambda g: [int(x) if x.isdigit() else x for x in _re.split(r"(\d+)", g.path)]):
+        if not g.path.startswith("compiler::") or g.path.startswith("compiler::repl"):
+            continue
+        gfl = None
+        for bb, t in g.calls():
+            c = callee_of(t) or ""
+            if not any(c.endswith(x) for x in SWALLOW):
+                continue
+            at = (t.get("arg_tys") or [""])[0]
+            if "CompileErr" not in at:
+                continue
+            nsw += 1
+            comb = c.rsplit("::", 1)[-1]
+            gfl = gfl or Flow(g)
+            rl = op_local(t["args"][0])
+            prods = sorted({(callee_of(tt) or "?").rsplit("::", 1)[-1] for x in (gfl.back_pure([rl]) if rl is not None else ())
+                            for _, tt in gfl.call_defs.get(x, []) if (tt.get("target_local") or tt.get("callee_local"))
+                            and not (callee_of(tt) or "").startswith("std::") and "CompileErr" in g.local_ty(tt["dest"]["l"])})
+            # flattening of Result<Result<T, E>, E>: the error is re-wrapped by the closure, not dropped
+            flatten = at.count("CompileErr") >= 2 and comb == "unwrap_or_else"
+            base = "R10.e|%s|%s|%s" % (g.root, comb, ",".join(prods) or "?")
+            if flatten:
+                R.ob("R10.e", base + "|flatten#%d" % nsw, g.loc(bb), "auto: unwrap_or_else flattens a nested Result (the error is passed on)", fn=g.path)
+                continue
+            ords[base] = ords.get(base, 0) + 1
+            key = base if ords[base] == 1 else "%s#%d" % (base, ords[base])
+            if key in tbl:
+                R.ob("R10.e", key, g.loc(bb), "table: %s — %s" % (tbl[key]["class"], tbl[key]["reason"]), fn=g.path)
+            else:
+                R.viol("R10.e", key, g.loc(bb),
+                       "%s discards the error of %s with %s(): a compile error (unbound name, recursive inline, redefinition ...) raised "
+                       "there no longer rejects the program" % (g.path, "/".join(prods) or "a fallible step", comb), fn=g.path)
+    R.counts["R10.e error-discarding combinators on CompileErr results"] = nsw
     return R.finalize()
 
 
